@@ -434,4 +434,62 @@ def compressBag (b : Bag) : Option (Bag × List Nat) :=
   let r := compress (pairs b) b.length
   some ({ b with rows := withSeqs b.rows r.1, length := r.2.2 }, r.2.1)
 
+/-! ### `Unalign` and `RenameRegexp` -/
+
+/-- `strings.Replace(seq, "-", "", -1)`: the sequence without its gap characters -/
+def degap (s : Seq) : Seq := s.filter fun c => c != GAP
+
+/-- the alphabets `NewSeqBag` accepts (any other value ends the process: `io.ExitWithMessage`) -/
+def seqBagAlphabetOK (a : Nat) : Bool := a == AMINOACIDS || a == NUCLEOTIDS || a == UNKNOWN
+
+/-- `Unalign()`: a NEW plain sequence set (`NewSeqBag(sb.Alphabet())`: default duplicate-name policy, no cached
+length) to which every row is added, in order, through `AddSequence` with its gap characters removed.  The
+error of `AddSequence` is dropped (the `seqbag` method never returns one); a name that two rows share is renamed
+by the insertion like any duplicate. -/
+def unalign (b : Bag) : Bag := addAllIgnore (newBag b.alphabet) ((pairs b).map fun p => (p.1, degap p.2))
+
+/-- the loop of `RenameRegexp` on the rows: row `i` gets the `i`-th of the new names (the values of
+`r.ReplaceAllString(name, replace)`, computed outside the model) -/
+def renameList : List Row → List String → List Row
+  | [], _ => []
+  | r :: t, [] => r :: t
+  | r :: t, n :: ns => { r with name := n } :: renameList t ns
+
+/-- `namemap[k] = v` on a map kept in order of first insertion -/
+def mapSet (k v : String) : List (String × String) → List (String × String)
+  | [] => [(k, v)]
+  | (k', v') :: t => if k == k' then (k', v) :: t else (k', v') :: mapSet k v t
+
+/-- the `namemap[oldname] = newname` assignments of the same loop, in row order (a later row of the same old
+name overwrites the entry) -/
+def renameMap : List String → List String → List (String × String) → List (String × String)
+  | [], _, m => m
+  | _ :: _, [], m => m
+  | o :: t, n :: ns, m => renameMap t ns (mapSet o n m)
+
+/-- `RenameRegexp(regex, replace, namemap)` once the regular expression compiled, with the new names supplied:
+names overwritten in place, `namemap` filled, then `rebuildIndex` (two rows that get the same new name keep
+it: the index points to the first of them).  Returns the state and the entries put into `namemap`. -/
+def renameRegexp (names : List String) (b : Bag) : Bag × List (String × String) :=
+  let rows := renameList b.rows names
+  ({ b with rows := rows, index := rebuildIndex rows }, renameMap (b.rows.map (·.name)) names [])
+
+/-! ### `SetAlphabet` -/
+
+/-- the decision of `SetAlphabet(alphabet)` given the alphabet `DetectAlphabet()` found: the alphabet to set, or
+`none` = an error (nothing detected; an alphabet other than the two; an alphabet the sequences do not fit) -/
+def setAlphabetResult (alphabet : Int) (detected : Nat) : Option Nat :=
+  if detected == UNKNOWN then none
+  else if alphabet == (NUCLEOTIDS : Nat) then
+    (if detected == NUCLEOTIDS || detected == BOTH then some NUCLEOTIDS else none)
+  else if alphabet == (AMINOACIDS : Nat) then
+    (if detected == AMINOACIDS || detected == BOTH then some AMINOACIDS else none)
+  else none
+
+/-- `SetAlphabet(alphabet)`: only the field `alphabet` can change; `true` = an error was returned -/
+def setAlphabet (alphabet : Int) (b : Bag) : Bag × Bool :=
+  match setAlphabetResult alphabet (detectAlphabetBag (b.rows.map (·.seq))) with
+  | some a => ({ b with alphabet := a }, false)
+  | none => (b, true)
+
 end Gv.Model
